@@ -87,6 +87,8 @@ pub fn alphabet(c18: bool, reduced: bool) -> (Vec<Stmt>, Vec<Block>) {
         return (atoms, blocks);
     }
     atoms.push(Stmt::Row(vec![Entry::Bits(2, name("a")), p(name("i")), Entry::X, Entry::X, Entry::X, Entry::X]));
+    // bits of a negative value (two's complement, most significant first) on signals wider than one bit
+    atoms.push(Stmt::Row(vec![Entry::Bits(3, sub(name("i"), lit(3))), Entry::X, Entry::X, Entry::X, Entry::X]));
     if c18 {
         // rows without any expression (alone in a loop or as a repeat row: the counter is a variable all the same)
         atoms.push(Stmt::Row(vec![Entry::Lit(1, Radix::Dec), Entry::Lit(2, Radix::Dec), Entry::Z, Entry::X, Entry::X, Entry::X, Entry::X]));
